@@ -35,9 +35,14 @@ def self_member(ctx, res):
     st = res.stream("self_member")
     # (kind, archive path relative to the run directory, source names in order, the member that is named like the archive)
     shapes = [("k7", "GAMES.K7", ["intro.bas", "games.k7", "after.dat"]), ("k7", "arc/TAPE.K7", ["tape.k7"]), ("k7", "A.K7", ["x.bin", "a.k7"]),
-              ("sd", "side0/DISK.SD", ["first.dat", "disk.sd"]), ("fd", "side0/IMG.FD", ["img.fd", "other.bin"]), ("fd", "side0/X.FD", ["x.fd"])]
-    for i in range(ctx.n(6, 60)):
+              ("sd", "side0/DISK.SD", ["first.dat", "disk.sd"]), ("fd", "side0/IMG.FD", ["img.fd", "other.bin"]), ("fd", "side0/X.FD", ["x.fd"]),
+              # near misses: the member carries the archive's name in another letter case, or the archive sits elsewhere than where
+              # the member goes: nothing is refused, the member is written, the archive stays
+              ("k7", "games.k7", ["intro.bas", "games.k7"]), ("k7", "Tape.K7", ["tape.k7"]), ("fd", "side0/img.fd", ["img.fd"]),
+              ("sd", "side1/DISK.SD", ["disk.sd"])]
+    for i in range(ctx.n(10, 60)):
         kind, arc, names = shapes[i % len(shapes)]
+        near_miss = os.path.basename(arc) != os.path.basename(arc).upper() or arc.startswith("side1/")
         # destinations: (label, argv for --into, cwd-relative?, does the member land on the archive?)
         for lay in ("onto", "onto_dot", "onto_abs", "elsewhere", "onto_symlink", "onto_hardlink"):
             d = ctx.fresh_dir()
@@ -71,7 +76,7 @@ def self_member(ctx, res):
                 into, a = {"onto": (".", arc), "onto_dot": ("side0/..", "./" + arc), "onto_abs": (d, apath), "elsewhere": ("out", arc),
                            "onto_symlink": (".", aliased) if linked else None, "onto_hardlink": (".", aliased) if linked else None}[lay]
             argv = ["-x"] + (["--into", into] if into is not None else []) + [a]
-            case = {"kind": kind, "archive": a, "into": into, "members": names, "layout": lay}
+            case = {"kind": kind, "archive": a, "into": into, "members": names, "layout": lay, "near_miss": near_miss}
             st.see(case, nontrivial=True)
             os.utime(apath, ns=(10**18, 10**18))
             before = P.tree(d)
@@ -81,8 +86,8 @@ def self_member(ctx, res):
                 res.violate("self_member", "extract replaced the archive it was reading by one of its members", case,
                             {"status": status, "archive_len_before": len(raw), "archive_len_after": None if after.get(arc) is None else len(after[arc][0])},
                             {"clause": "read_only", "layout": lay, "kind": kind})
-            if lay == "elsewhere" and status != "ok0":
-                res.violate("self_member", "extract elsewhere failed", case, status, {"clause": "status"})
+            if (lay == "elsewhere" or (near_miss and lay not in ("onto_hardlink",))) and status != "ok0":
+                res.violate("self_member", "extract failed although no member is the archive", case, status, {"clause": "status"})
             # the model on the same bytes: same status, and none of its writes is the archive
             if kind == "k7":
                 mo = T.parse_outcome(drv([f"tape.extract q {cps(a)} {'~' if into is None else cps(into)} {raw.hex()}"])[0])
@@ -107,7 +112,7 @@ def source_is_archive(ctx, res):
     rng = ctx.rng
     for fl in ("fd", "sd"):
         for mode in ("create", "add"):
-            for spelling in ("plain", "dotslash", "abs", "option_a"):
+            for spelling in ("plain", "dotslash", "abs", "option_a", "option_A", "abs_vs_relative", "relative_vs_abs", "symlink", "hardlink"):
                 for position in ("first", "middle", "last", "after_four_eos"):
                     d = ctx.fresh_dir()
                     arc = "img." + fl
@@ -121,8 +126,12 @@ def source_is_archive(ctx, res):
                     else:
                         open(apath, "wb").write(b"an older file at the archive's path" * 9)
                     pre = open(apath, "rb").read()
-                    src = {"plain": arc, "dotslash": "./" + arc, "abs": apath, "option_a": arc + ",a"}[spelling]
-                    clean = src[:-2] if spelling == "option_a" else src
+                    if spelling in ("symlink", "hardlink"):
+                        # the source is another name of the archive's file
+                        (os.symlink if spelling == "symlink" else os.link)(arc if spelling == "symlink" else apath, os.path.join(d, "alias.dat"))
+                    src = {"plain": arc, "dotslash": "./" + arc, "abs": apath, "option_a": arc + ",a", "option_A": arc + ",A",
+                           "abs_vs_relative": apath, "relative_vs_abs": arc, "symlink": "alias.dat", "hardlink": "alias.dat"}[spelling]
+                    clean = src[:-2] if spelling in ("option_a", "option_A") else src
                     names = [n for n, _ in others]
                     srcs = {"first": [src] + names, "middle": [names[0], src, names[1]], "last": names + [src],
                             "after_four_eos": names + ["--eos"] * 4 + [src]}[position]
@@ -130,7 +139,9 @@ def source_is_archive(ctx, res):
                     before = P.tree(d)
                     # the model compares paths lexically, both relative or both absolute (DESIGN S3): the absolute spelling of the
                     # source goes with the absolute spelling of the archive
-                    arc_arg = apath if spelling == "abs" else arc
+                    arc_arg = apath if spelling in ("abs", "relative_vs_abs") else arc
+                    # a relative and an absolute spelling of one place, and links, are outside the model's lexical comparison: oracle only
+                    unmodelled = spelling in ("abs_vs_relative", "relative_vs_abs", "symlink", "hardlink")
                     status, out = D.dar(fl, ["-c" if mode == "create" else "-r", arc_arg] + srcs, cwd=d)
                     after = P.tree(d)
                     case = {"flavour": fl, "mode": mode, "spelling": spelling, "position": position}
@@ -144,7 +155,7 @@ def source_is_archive(ctx, res):
                         req = D.model_create(blobs, fl, False, arc_arg, srcs, world)
                     else:
                         req = D.model_add(blobs, fl, False, arc_arg, pre, srcs, world)
-                    mo = D.parse_disk_outcome(drv([req])[0])
+                    mo = None if unmodelled else D.parse_disk_outcome(drv([req])[0])
                     if mo is not None:
                         st.compared += 1
                         if mo["status"] != status or bool(mo["writes"]) != bool(changed):
@@ -170,11 +181,11 @@ def run(ctx, res):
         case = {"kind": kind, "files": [(n, len(c)) for n, c in files]}
         st.see(case, nontrivial=len(files) > 0)
         variants = {}
-        layouts = ["plain", "again", "verbose", "subdir", "dotted", "absolute", "old_target_short", "old_target_long", "old_archive"]
+        layouts = ["plain", "again", "verbose", "subdir", "dotted", "absolute", "old_target_short", "old_target_long", "old_archive", "accented_dir", "blank_dir"]
         for lay in layouts:
             d = ctx.fresh_dir()
             arc = "out." + kind
-            sub = {"subdir": "src", "dotted": "my.dir/v1.2"}.get(lay, "")
+            sub = {"subdir": "src", "dotted": "my.dir/v1.2", "accented_dir": "donn\u00e9es/\u00e9t\u00e9", "blank_dir": "my files/v 2,a"}.get(lay, "")
             make_sources(d, files, sub)
             if lay == "absolute":
                 srcs = [os.path.join(d, n) for n, _ in files]
@@ -219,12 +230,17 @@ def run(ctx, res):
         create(kind, d, arc, [n for n, _ in files], False)
         os.utime(os.path.join(d, arc), ns=(10**18, 10**18))
         before = P.tree(d)
+        seen = {}
         for rep in range(2):
             for action in (["-t"], ["-t", "-v"], ["-x", "--into", "xout"], ["-x", "-v", "--into", "xout"]):
                 if kind == "k7":
-                    T.tar(action + [arc], cwd=d)
+                    r = T.tar(action + [arc], cwd=d)
                 else:
-                    D.dar(kind, action + [arc], cwd=d)
+                    r = D.dar(kind, action + [arc], cwd=d)
+                # reading twice gives the same status and the same report; the files extracted are the sources
+                if r[0] != "ok0" or seen.setdefault(tuple(action), r) != r:
+                    res.violate("paired_create", "reading the same archive again gives another status or report", case,
+                                {"action": action, "first": seen[tuple(action)][0], "now": r[0]}, {"clause": "read_repeatable"})
         after = P.tree(d)
         changed = sorted(k for k in set(before) | set(after) if before.get(k) != after.get(k) and not k.startswith("xout"))
         if changed:
